@@ -452,6 +452,9 @@ type fakeTxMsg struct {
 	token     bool // the harness believes a token is in the wake-up channel
 	content   int
 	wakeCh    chan struct{} // the real thing: capacity one, filled by a non-blocking send
+	gen       genTx         // non-nil: flag and wake-up channel are those of a GENERATED message (MotorCommand of the example's
+	// DRIVER node): toggles go through the generated SetCyclicTransmissionEnabled, the runner reads the generated
+	// IsCyclicTransmissionEnabled / WakeUpChan
 	evOut     chan struct{}
 	gotWake   bool
 	lastFlag  bool // the previous access was the flag read (=> the next Unlock parks the loop)
@@ -462,6 +465,21 @@ type fakeTxMsg struct {
 	hookFail  map[int]bool // k-th hook invocation fails
 	hookLock  map[int]bool // k-th hook invocation takes the lock and mutates
 	txFail    map[int]bool // k-th TransmitFrame fails
+}
+
+// genTx: what the fake borrows from a generated transmitted message.
+type genTx interface {
+	IsCyclicTransmissionEnabled() bool
+	SetCyclicTransmissionEnabled(bool)
+	WakeUpChan() <-chan struct{}
+}
+
+// wakeLen: tokens in the wake-up channel the runner selects on.
+func (m *fakeTxMsg) wakeLen() int {
+	if m.gen != nil {
+		return len(m.gen.WakeUpChan())
+	}
+	return len(m.wakeCh)
 }
 
 // access: the state the method reads is read when the step is granted, not when the call arrives
@@ -487,11 +505,20 @@ func (m *fakeTxMsg) WakeUpChan() <-chan struct{} {
 	m.w.emit(fmt.Sprintf("GW.%x", t))
 	m.gotWake = true
 	m.w.stepDone()
+	if m.gen != nil {
+		return m.gen.WakeUpChan()
+	}
 	return m.wakeCh
 }
 func (m *fakeTxMsg) IsCyclicTransmissionEnabled() bool {
 	var b bool
-	m.access(func() string { b = m.flag; return "flag" + b01(b) })
+	m.access(func() string {
+		b = m.flag
+		if m.gen != nil {
+			b = m.gen.IsCyclicTransmissionEnabled()
+		}
+		return "flag" + b01(b)
+	})
 	return b
 }
 func (m *fakeTxMsg) BeforeTransmitHook() func(context.Context) error {
